@@ -587,7 +587,7 @@ def run_harness(exe, lines, name):
     return rc, out, err
 
 
-def run_all(exe, cases, name, max_crashes=3):
+def run_all(exe, cases, name, max_crashes=12):
     """run all cases; after a crash continue with the cases behind the crashing one in a new process.
     returns (blocks by case index string, list of (case index, observations so far, rc, stderr))"""
     blocks, crashes = {}, []
